@@ -160,6 +160,42 @@ func solveAll(w *World, cfg *RunCfg, results []*FuncResult) {
 		}(j)
 	}
 	wg.Wait()
+	// second chance for undecided queries: the same goal from the path facts alone (no axioms, no
+	// unfoldings - fewer assumptions, so a refutation there is a refutation of the full query)
+	{
+		var again []job
+		for _, j := range jobs {
+			if j.o.ExpectFail || j.q.Status == "unsat" || j.q.Status == "sat" || j.q.Status == "error" || j.q.Status == "trivial" {
+				continue
+			}
+			func() {
+				defer func() { recover() }()
+				ex.Lite = true
+				j.q.LiteSMT = ex.BuildSMT(j.q, cfg.Rounds)
+				ex.Lite = false
+			}()
+			ex.Lite = false
+			if j.q.LiteSMT != "" && j.q.LiteSMT != j.q.SMT {
+				again = append(again, j)
+			}
+		}
+		var wg2 sync.WaitGroup
+		for _, j := range again {
+			wg2.Add(1)
+			sem <- struct{}{}
+			go func(j job) {
+				defer wg2.Done()
+				defer func() { <-sem }()
+				if lr := SolveLite(cfg.Solver, j.q.LiteSMT); lr.status == "unsat" {
+					j.q.Status = lr.status
+					j.q.Solver = lr.solver
+					j.q.Ms += lr.ms
+					j.q.Output = lr.output
+				}
+			}(j)
+		}
+		wg2.Wait()
+	}
 	for _, r := range results {
 		for _, o := range r.Obls {
 			o.Status = "discharged"
